@@ -10,6 +10,7 @@ CONSTANTS
   MaxChanges = 1
   MaxCancels = 1
   SkipCancelled = TRUE
+  FastPath = FALSE
   Timely = TRUE
   StaleFullBucket = TRUE
   StaleRateOnChange = FALSE
